@@ -40,7 +40,7 @@ PROGRAMS = [
     ("sc100", "sphcube", 100, 23, 1, "q", True, "Boolean, 15k halfedges > kSeqThreshold 1e4; collider > 512 leaves"),
     ("sc100i", "sphcube", 100, 41, 2, "q", True, "Intersect variant"),
     ("sc100u", "sphcube", 100, 11, 0, "q", False, "Add variant"),
-    ("sc260", "sphcube", 260, 23, 1, "q", True, "101k halfedges > 1e5 (sort.cpp, impl.cpp, FlagStore n>1e5)"),
+    ("sc260", "sphcube", 260, 23, 1, "q", False, "101k halfedges > 1e5 (sort.cpp, impl.cpp, FlagStore n>1e5)"),
     ("ss128", "sphsph", 128, 0, 0, "q", True, "many collisions: p1q2 > kParallelThreshold 128, i12 sort"),
     ("ss420", "sphsph", 420, 0, 1, "t", False, "i12 >= 1e5 path; 260k tris"),
     ("sc420", "sphcube", 420, 23, 1, "t", False, "88k tris, 265k halfedges"),
@@ -50,7 +50,7 @@ PROGRAMS = [
     ("ls30", "levelset", 30, 0, 0, "q", True, "LevelSet small"),
     ("ls44", "levelset", 44, 0, 0, "q", True, "LevelSet 26k verts (parallel grid passes)"),
     ("ls64", "levelset", 64, 0, 0, "t", False, "LevelSet 56k verts"),
-    ("ref3", "refine", 40, 3, 0, "q", True, "Refine(3) of a Boolean: 8.5k -> 76k tris"),
+    ("ref3", "refine", 40, 3, 0, "q", False, "Refine(3) of a Boolean: 8.5k -> 76k tris"),
     ("smooth", "smooth", 12, 0, 0, "q", False, "SmoothOut + Refine(12): smoothing.cpp 1e4 thresholds"),
     ("reflen", "reflen", 40, 0, 0, "q", False, "RefineToLength"),
     ("batch40", "batch", 40, 1, 0, "q", True, "BatchBoolean of 40 parts: task_group + heap"),
@@ -59,7 +59,7 @@ PROGRAMS = [
     ("batch200", "batch", 200, 3, 0, "t", False, "BatchBoolean of 200 parts"),
     ("hull3k", "hull", 3000, 1, 1, "q", True, "Hull of 3000 points on a sphere (9k halfedges..)"),
     ("hull20k", "hull", 20000, 1, 1, "t", False, "Hull of 20000 points on a sphere"),
-    ("hullin", "hull", 20000, 2, 0, "q", True, "Hull of 20000 points in a cube (few extreme)"),
+    ("hullin", "hull", 20000, 2, 0, "q", False, "Hull of 20000 points in a cube (few extreme)"),
     ("mink", "mink", 12, 0, 0, "q", True, "Minkowski sum, non-convex x convex (autoPolicy 100)"),
     ("minkd", "mink", 8, 0, 1, "q", False, "Minkowski difference"),
     ("decomp", "decomp", 20, 24, 0, "q", True, "Compose + Decompose (union-find labels)"),
@@ -213,7 +213,16 @@ def run(cx):
         for f in futs:
             n, r = f.result()
             results[n] = r
-    cx.log("exploration: %d configurations in %.1fs" % (len(configs), time.time() - t0))
+    # a configuration that hit its timeout is re-run alone with a generous limit before it counts
+    # (the machine may be heavily loaded; a genuine hang still ends as a broken obligation)
+    retried = []
+    for c in configs:
+        if results[c[0]][0] == 124:
+            retried.append(c[0])
+            results[c[0]] = run_config(c[1], c[2], c[3], timeout=cx.pick(900, 3000))
+    if retried:
+        cx.notes.append("re-run alone after a timeout under load: " + ", ".join(retried))
+    cx.log("exploration: %d configurations in %.1fs (%d re-run after timeout)" % (len(configs), time.time() - t0, len(retried)))
 
     # compare
     ref = parse(results["seq"][1])
